@@ -485,8 +485,13 @@ fn run_case<P: PipelineRuntime, D: Driver>(
     let mut dead = false;
     let mut op_counts_total: std::collections::BTreeMap<String, u64> = Default::default();
 
-    for step in steps {
+    let journal_steps = case.get("journal_steps").and_then(|x| x.as_bool()).unwrap_or(false);
+    for (step_idx, step) in steps.iter().enumerate() {
         let mut sm = Map::new();
+        if journal_steps && !dead {
+            // lets the supervisor attribute a process death to one statement of the case
+            journal(&json!({"step": step_idx}));
+        }
         if dead {
             sm.insert("outcome".into(), json!("skipped"));
             results.push(Value::Object(sm));
